@@ -1125,6 +1125,10 @@ fn h_line(now: u32, inst: u64, keys: &[K], s: &S, name: &N, ty: u16, recs: &[Rec
 /// one history: validate; advance the clock / change what upstream serves; validate again
 fn gen_history(r: &mut Rng, kind: u64) -> Option<Vec<String>> {
     let mut b = gen_base(r);
+    while b.ty == 48 {
+        // a DNSKEY RRset takes the verify_dnskey_rrset path (C07), which this model does not cover
+        b = gen_base(r);
+    }
     // histories use plain (non-wrapping) windows and TTLs that are 0 or long: the cache runs on real time
     b.s.inc = *r.pick(&[1_700_000_000u32, 0xFFFF_FF00, 100]);
     let life = *r.pick(&[10u32, 60, 600]);
